@@ -375,6 +375,12 @@ class Source:
         found: Optional[Item] = None
         parts = [p.strip() for p in path.split("/")]
         for depth, sel in enumerate(parts):
+            # `impl X [fn new]`: of several impl blocks with the same header, the one that has this child item
+            having = None
+            mh = re.search(r"\[([a-z_]+) ([A-Za-z0-9_]+)\]\s*$", sel)
+            if mh:
+                having = (mh.group(1), mh.group(2))
+                sel = sel[:mh.start()].strip()
             mk = re.match(r"[a-z_]+", sel)
             kind = mk.group(0)
             pat = sel[mk.end():].strip()
@@ -387,6 +393,8 @@ class Source:
                         cands.append(it)
                 elif it.name == pat:
                     cands.append(it)
+            if having:
+                cands = [c for c in cands if any(k.kind == having[0] and k.name == having[1] for k in self.children(c))]
             if len(cands) != 1:
                 raise ExtractError(
                     f"{self.path}: selector '{sel}' of '{path}' matched {len(cands)} items"
